@@ -177,7 +177,7 @@ def main_oracle(rng, root):
             return "%s: unreadable input must give status 3; got %r" % (what, code), kind
         if not broken and pr["mode"] != "disassemble" and kind in files and code != 0 and not debug:
             return "%s: a valid program gives exit status %r, stderr %r" % (what, code, err[:160]), kind
-        if pr["mode"] == "" and kind == "good" and code == 0:
+        if pr["mode"] == "" and kind == "good" and code == 0 and (pr["throttle"] is None or pr["throttle"] >= 3):
             if "R1 = " not in out:
                 return "%s: the program's output is not on stdout: %r" % (what, out[:100]), kind
             if "--quiet" not in pr["flags"] and "R1" not in err:
@@ -212,14 +212,23 @@ def documented_incompatibility(argv):
     """The documented rule, re-implemented: a mode-specific option given (in either syntax, with any value)
     together with a sub-command it does not belong to.  Returns the option or None."""
     given, mode = set(), ""
+    subs = []
+    skip = False
     for a in argv:
+        if skip:
+            skip = False          # the value of --throttle / --init
+            continue
         if a == "--":
             break
+        if a in ("--throttle", "--init"):
+            skip = True
         for f in DOCUMENTED_MODES:
             if a == f or (f in ("--throttle", "--init") and a.startswith(f)):
                 given.add(f)
+        if a in ("debug", "assemble", "preprocess", "disassemble"):
+            subs.append(a)
     for m in ("debug", "assemble", "preprocess", "disassemble"):
-        if m in argv[:argv.index("--")] if "--" in argv else m in argv:
+        if m in subs:
             mode = m
             break
     for f in sorted(given):
